@@ -18,6 +18,13 @@ A file is assembled from pieces, then parsed:
 * `gparse`    the same dump; when the document is well-formed and its `meaning` says something else
               about sections / keys / values / typed getters: ` SPECDIFF <spec dump>`
 * `reset`     forget the pieces
+* `get SEC KEY SDEF IDEF BDEF DDEFBITS`   the current file parsed afresh, every getter with these arguments
+              (SEC / KEY / SDEF: `NULL`, `-` or hex); answer `s= i= b= l= d= e= n=` (n = number of listed keys of SEC)
+* `gget …`    the same; for a well-formed document the documented answer is compared (` SPECDIFF`)
+* `life SEC KEY`  life cycle: unparsed object, NULL object, first parse, second parse after the file changed
+              on disk, object for a path that does not exist
+* `chomp X`, `strdup X`, `strtod X`, `strtok STR D1 [D2 …]`, `strtokb STR DELIM`   the `pstring.c` entry points
+              (`chomp`, `strtok`: ` SPECDIFF` when `IniSpec.trim` / `IniSpec.tokens` say something else)
 -/
 namespace PV.Driver.Ini
 open PV.Ini
@@ -95,7 +102,7 @@ def specGetters (v : Option Bytes) : String :=
   match v with
   | some v => " s=" ++ hexD v ++ " i=" ++ fmtInt (atoi v) ++ " b=" ++ fmtBool (toBoolean v)
               ++ " l=" ++ fmtList (toList v) ++ " d=*" ++ " e=1"
-  | none => " s=" ++ hexD dflt ++ " i=-7 b=1 l=- d=* e=0"
+  | none => " s=" ++ hexD dflt ++ " i=-7 b=1 l=- d=" ++ hex16 (2.5 : Float).toBits ++ " e=0"
 
 def specDump (m : List (Bytes × List (Bytes × Bytes))) : String :=
   "ok" ++ String.join (m.map fun (s, kvs) =>
@@ -121,6 +128,177 @@ def addLine (s : St) (l : Line) (hex : Bytes) : St :=
   match s.secs with
   | [] => { s with pre := l :: s.pre, pieces := hex :: s.pieces }
   | x :: xs => { s with secs := { x with body := l :: x.body } :: xs, pieces := hex :: s.pieces }
+
+/-! ### getters with chosen arguments, life cycle, `pstring.c` entry points -/
+
+/-- `NULL`, `-` or hex -/
+def argOf (t : String) : Option (Option Bytes) :=
+  if t == "NULL" then some none else (hx t).map some
+
+def optHex : Option Bytes → String
+  | none => "NULL"
+  | some b => hexD b
+
+def u64OfHex (t : String) : Option UInt64 :=
+  if t.length != 16 then none
+  else t.toList.foldl (fun acc c => do
+    let a ← acc
+    let v ← hexVal c
+    pure (a * 16 + UInt64.ofNat v)) (some 0)
+
+def intOf (t : String) : Option Int :=
+  match t.toList with
+  | '-' :: r => (String.ofList r).toNat?.map fun n => -(n : Int)
+  | _ => t.toNat?.map fun n => (n : Int)
+
+/-- the bits of a returned double; `Float.toBits` canonicalises NaNs, so a default that comes back untouched
+(theorem `unparsed_or_null_yields_defaults` / `getter_stored`: it is returned as it was passed) is printed from the bits it was given as -/
+def doubleBits (h : Option Handle) (sec key : Option Bytes) (ddef : Float) : String :=
+  let r := apiDouble h sec key ddef
+  if (apiFind h sec key).isNone && ddef.isNaN then "nan" else hex16 r.toBits
+
+def apiGetters (h : Option Handle) (sec key sdef : Option Bytes) (idef : Int) (bdef : Bool) (ddef : Float) : String :=
+  "s=" ++ optHex (apiString h sec key sdef)
+  ++ " i=" ++ fmtInt (apiInt h sec key idef)
+  ++ " b=" ++ fmtBool (apiBoolean h sec key bdef)
+  ++ " l=" ++ fmtList (apiList h sec key)
+  ++ " d=" ++ doubleBits h sec key ddef
+  ++ " e=" ++ (if apiIsKeyExists h sec key then "1" else "0")
+  ++ " n=" ++ toString (apiKeys h sec).length ++ "/" ++ toString (apiKeys h sec).eraseDups.length
+
+/-- the documented answer for a well-formed document -/
+def specApiGetters (d : Doc) (sec key sdef : Option Bytes) (idef : Int) (bdef : Bool) (ddef : Float) : String :=
+  let v : Option Bytes := match sec, key with
+    | some s, some k => IniSpec.docFind d s k
+    | _, _ => none
+  let n : Nat := match sec with
+    | some s => IniSpec.docKeyCount d s
+    | none => 0
+  (match v with
+   | some v => "s=" ++ hexD v ++ " i=" ++ fmtInt (atoi v) ++ " b=" ++ fmtBool (toBoolean v)
+               ++ " l=" ++ fmtList (toList v) ++ " d=*" ++ " e=1"
+   | none => "s=" ++ optHex sdef ++ " i=" ++ toString idef ++ " b=" ++ (if bdef then "1" else "0")
+               ++ " l=- d=" ++ (if ddef.isNaN then "nan" else hex16 ddef.toBits) ++ " e=0")
+  ++ " n=*/" ++ toString n
+
+/-- replace the `d=` field by `d=*` (`dbl`) and the total of `n=total/distinct` by `*` -/
+def starFields (dbl : Bool) (line : String) : String :=
+  " ".intercalate ((line.splitOn " ").map fun t =>
+    if dbl && t.startsWith "d=" then "d=*"
+    else if t.startsWith "n=" then "n=*/" ++ ((t.splitOn "/").getD 1 "") else t)
+
+def countsOf (h : Option Handle) : String :=
+  let secs := apiSections h
+  let nk := (secs.map fun s => (apiKeys h (some s)).length).foldl (· + ·) 0
+  " S=" ++ toString secs.length ++ " K=" ++ toString nk ++ " "
+
+def errName : Option ParseError → String
+  | none => "none"
+  | some .invalidArgument => "invalid"
+  | some (.openFailed true) => "notexists"
+  | some (.openFailed false) => "other"
+
+def b01 (b : Bool) : String := if b then "1" else "0"
+
+/-- `[zz]␊zk=zv␊[zy]␊zk=1␊`: what the harness writes over the file between the two parse calls -/
+def otherContent : Bytes :=
+  [91, 122, 122, 93, 10, 122, 107, 61, 122, 118, 10, 91, 122, 121, 93, 10, 122, 107, 61, 49, 10]
+
+def lifeLine (content : Bytes) (sec key : Option Bytes) : String :=
+  let path : Bytes := [102]
+  let missing : Bytes := [109]
+  let fs1 : Bytes → Except Bool Bytes := fun p => if p == path then .ok content else .error true
+  let fs2 : Bytes → Except Bool Bytes := fun p => if p == path then .ok otherContent else .error true
+  let negZero : Float := Float.ofBits 0x8000000000000000
+  let h0 := fileNew (some path)
+  let out := "new0=" ++ b01 (fileNew none).isNone
+  let out := out ++ " U p=" ++ b01 (fileIsParsed h0) ++ countsOf h0
+    ++ apiGetters h0 sec key (some [117]) 0 false negZero
+  let out := out ++ " N p=" ++ b01 (fileIsParsed none) ++ countsOf none
+    ++ apiGetters none sec key none (-2147483648) true (1.0 / 3.0)
+  let (_, r, e) := fileParse fs1 none
+  let out := out ++ " r=" ++ b01 r ++ " err=" ++ errName e
+  let (h1, r, e) := fileParse fs1 h0
+  let out := out ++ " P r=" ++ b01 r ++ " err=" ++ errName e ++ " p=" ++ b01 (fileIsParsed h1) ++ countsOf h1
+    ++ apiGetters h1 sec key (some []) 2147483647 false negZero
+  let (h2, r, e) := fileParse fs2 h1
+  let out := out ++ " Q r=" ++ b01 r ++ " err=" ++ errName e ++ " p=" ++ b01 (fileIsParsed h2) ++ countsOf h2
+    ++ apiGetters h2 sec key (some []) 2147483647 false negZero
+  let m0 := fileNew (some missing)
+  let (m1, r, e) := fileParse fs2 m0
+  let out := out ++ " M r=" ++ b01 r ++ " err=" ++ errName e ++ " p=" ++ b01 (fileIsParsed m1)
+  let (m2, r, e) := fileParse fs2 m1
+  let out := out ++ " M r=" ++ b01 r ++ " err=" ++ errName e ++ " p=" ++ b01 (fileIsParsed m2)
+  out ++ countsOf m2 ++ apiGetters m2 sec key (some [109]) (-1) true 2.5
+
+/-- the call sequence of the harness: call `i` uses delimiter set `min i (nd - 1)` -/
+def strtokCalls (delims : Array (Option Bytes)) : Nat → Nat → Option Bytes → Bytes → String → String
+  | 0, _, _, _, out => out
+  | fuel + 1, call, cur, save, out =>
+    match delims.getD (min call (delims.size - 1)) none with
+    | none =>
+      let out := out ++ " ret=" ++ (if cur.isSome then "str" else "NULL")
+      if call + 1 ≥ delims.size then out else strtokCalls delims fuel (call + 1) cur save out
+    | some d =>
+      let text := match cur with
+        | some s => s
+        | none => save
+      match strtokR (cstr d) text with
+      | none => out
+      | some (tok, rest) => strtokCalls delims fuel (call + 1) none rest (out ++ " " ++ hexD tok)
+
+def step2 (s : St) (toks : List String) : Option (IO Unit) :=
+  match toks with
+  | [op, sec, key, sdef, idef, bdef, ddef] =>
+    if op != "get" && op != "gget" then none else
+    match argOf sec, argOf key, argOf sdef, intOf idef, bdef.toNat?, u64OfHex ddef with
+    | some sec, some key, some sdef, some idef, some bdef, some dbits =>
+      if bdef > 1 || idef > 2147483647 || idef < -2147483648 then some (IO.println "bad-op") else
+      let dd := Float.ofBits dbits
+      let (h, _, _) := fileParse (fun _ => .ok s.bytes) (fileNew (some [102]))
+      let m := apiGetters h sec key sdef idef (bdef == 1) dd
+      if op == "gget" && s.wf then
+        let sp := specApiGetters s.doc (sec.map cstr) (key.map cstr) (sdef.map cstr) idef (bdef == 1) dd
+        let mv := starFields (apiFind h sec key).isSome m
+        some (IO.println (if mv == sp then m else m ++ " SPECDIFF " ++ sp))
+      else some (IO.println m)
+    | _, _, _, _, _, _ => some (IO.println "bad-op")
+  | ["life", sec, key] =>
+    match argOf sec, argOf key with
+    | some sec, some key => some (IO.println (lifeLine s.bytes sec key))
+    | _, _ => some (IO.println "bad-op")
+  | ["chomp", x] =>
+    match argOf x with
+    | some a =>
+      let m := optHex (strchomp a)
+      let sp := optHex (a.map fun b => IniSpec.trim (cstr b))
+      some (IO.println (if m == sp then m else m ++ " SPECDIFF " ++ sp))
+    | none => some (IO.println "bad-op")
+  | ["strdup", x] =>
+    match argOf x with
+    | some a => some (IO.println (optHex (strdup a) ++ " distinct=1"))
+    | none => some (IO.println "bad-op")
+  | ["strtod", x] =>
+    match argOf x with
+    | some a => some (IO.println ("d=" ++ hex16 (strtodApi a).toBits))
+    | none => some (IO.println "bad-op")
+  | ["strtokb", x, d] =>
+    match argOf x, argOf d with
+    | some a, some _ => some (IO.println ("ret=" ++ (if a.isSome then "str" else "NULL")))
+    | _, _ => some (IO.println "bad-op")
+  | "strtok" :: x :: d1 :: ds =>
+    match argOf x, (d1 :: ds).mapM argOf with
+    | some (some str), some delims =>
+      if delims.length > 16 then some (IO.println "bad-op") else
+      let m := strtokCalls delims.toArray 4096 0 (some (cstr str)) [] "T"
+      -- the documented reading applies to the documented loop: one delimiter set, never NULL
+      match delims with
+      | [some d] =>
+        let sp := String.join ((IniSpec.tokens (cstr d) (cstr str)).map fun t => " " ++ hexD t)
+        some (IO.println (if m == "T" ++ sp then m else m ++ " SPECDIFF T" ++ sp))
+      | _ => some (IO.println m)
+    | _, _ => some (IO.println "bad-op")
+  | _ => none
 
 def step (s : St) (toks : List String) : IO (St × Bool) := do
   let bad : IO (St × Bool) := do IO.println "bad-op"; return ({ s with grammar := false }, false)
@@ -175,7 +353,10 @@ def step (s : St) (toks : List String) : IO (St × Bool) := do
       else IO.println (d ++ " SPECDIFF " ++ specDump m)
     else IO.println d
     return (s, false)
-  | _ => bad
+  | _ =>
+    match step2 s toks with
+    | some act => act; return (s, false)
+    | none => bad
 
 def run : IO Unit := do
   let _ ← forEachLine (← IO.getStdin) St {} step
